@@ -221,7 +221,29 @@ def merge(exports):
 # Hypothesis driver
 
 
+CHUNK = 500  # examples per Hypothesis run in long campaigns; the wall budget is looked at between runs
+MACHINE_CHUNK = 40
+
+
 def run_given(ctx, acc, check, strategy, judge, *, seed, n, shrink_cap_s=None, to_case=None):
+    """Long campaigns (n > CHUNK) are a sequence of Hypothesis runs of CHUNK examples with seeds derived from `seed`; between runs the
+    wall budget is checked, so that a budget hit stops the generation as well (inside a run it only skips the judging)."""
+    if n <= CHUNK:
+        return _run_given(ctx, acc, check, strategy, judge, seed=seed, n=n, shrink_cap_s=shrink_cap_s, to_case=to_case)
+    done, k = 0, 0
+    while done < n:
+        if ctx.expired():
+            acc.note("stopped_budget_examples", n - done)
+            break
+        m = min(CHUNK, n - done)
+        if not _run_given(ctx, acc, check, strategy, judge, seed=seed + 7919 * k, n=m, shrink_cap_s=shrink_cap_s, to_case=to_case):
+            return False
+        done += m
+        k += 1
+    return True
+
+
+def _run_given(ctx, acc, check, strategy, judge, *, seed, n, shrink_cap_s=None, to_case=None):
     """Drive `judge(case, acc)` with Hypothesis. judge raises Violation on a property violation.
 
     The minimal failing example (after shrinking, capped in wall time) is recorded in acc.failures.
@@ -292,6 +314,23 @@ def run_given(ctx, acc, check, strategy, judge, *, seed, n, shrink_cap_s=None, t
 
 
 def run_machine(ctx, acc, check, machine_cls, *, seed, n, steps):
+    """Long campaigns are split like run_given's."""
+    if n <= MACHINE_CHUNK:
+        return _run_machine(ctx, acc, check, machine_cls, seed=seed, n=n, steps=steps)
+    done, k = 0, 0
+    while done < n:
+        if ctx.expired():
+            acc.note("stopped_budget_examples", n - done)
+            break
+        m = min(MACHINE_CHUNK, n - done)
+        if not _run_machine(ctx, acc, check, machine_cls, seed=seed + 7919 * k, n=m, steps=steps):
+            return False
+        done += m
+        k += 1
+    return True
+
+
+def _run_machine(ctx, acc, check, machine_cls, *, seed, n, steps):
     """Run a rule based state machine; the machine records its history in self.history (jsonable) and
     raises Violation from rules/invariants."""
     import hypothesis
@@ -311,6 +350,7 @@ def run_machine(ctx, acc, check, machine_cls, *, seed, n, steps):
     )
     holder = {}
     machine_cls._holder = holder
+
     try:
         run_state_machine_as_test(hypothesis.seed(seed)(machine_cls), settings=st)
     except Violation as v:
@@ -473,7 +513,9 @@ def main(argv=None):
     a = ap.parse_args(argv)
     cid = a.id.upper()
     seed = int(os.environ.get("VERIF_SEED", "1") or "1")
-    budget = os.environ.get("VERIF_BUDGET_S")
+    # the thorough tier is bounded by case counts; a default wall budget of 40 minutes keeps the slowest checks (C01, C02) from running
+    # much longer on a loaded machine - cases not reached are reported as skipped (inconclusive), never as violations
+    budget = os.environ.get("VERIF_BUDGET_S") or ("2400" if a.tier == "thorough" and not a.replay else None)
     t0 = time.time()
     deadline = t0 + float(budget) if budget else None
 
@@ -627,8 +669,12 @@ def _main(cid, a, seed, deadline, scratch, t0):
     if hasattr(mod, "finalize"):
         try:
             mod.finalize(ctx, m, ev)
-        except HarnessError:
-            if not violations:
+        except HarnessError as e:
+            if deadline and time.time() > deadline:
+                # the wall budget cut the campaign short: coverage demands that were not met make the run inconclusive, not broken
+                ev.setdefault("coverage", {})["inconclusive_budget"] = str(e)
+                print(f"NOTE {cid}: budget exhausted before full coverage ({e})")
+            elif not violations:
                 raise  # vacuity guards only matter when nothing was found
     try:
         validate_evidence(ev)
